@@ -22,6 +22,7 @@ BROAD = {"Exception", "BaseException", "OSError", "EOFError", "IOError", "Enviro
 FROZEN_EXEMPT = {
     "open_raise_limit": "retries once after raising the open-files limit and re-raises everything else",
     "available_cpu_count": "os.sched_getaffinity is unavailable on some platforms; unrelated to input",
+    "_sendable": "catches the failure of a TRIAL pickling of an error that is being forwarded; returns an exception object carrying the original message either way (shape checked by frames.is_pickle_guard)",
 }
 
 
@@ -47,15 +48,24 @@ def run(repo, report, tier):
     report.notes.append("Not decided: termination under every schedule and fault position (liveness; model-checking family), completeness of records written before the error, library behaviour on truncated streams.")
 
 
-def _handler_sends_error(h, conn_pred):
-    sends = [(chain(x.func), src(x.args[0])) for x in calls(h) if isinstance(x.func, ast.Attribute) and x.func.attr == "send" and x.args]
+def _handler_sends_error(h, conn_pred, repo=None, exc_name="e"):
+    """(-2, then a 2-tuple whose first element stands for the caught exception) on one connection; returns (ok, sends, kinds)"""
+    from .frames import error_payload
+    cs = [x for x in calls(h) if isinstance(x.func, ast.Attribute) and x.func.attr == "send" and x.args]
+    sends = [(chain(x.func), src(x.args[0])) for x in cs]
     if len(sends) != 2:
         return False, sends
-    ok = sends[0][1] == "-2" and sends[1][1].startswith("(e,") and sends[0][0] == sends[1][0] and conn_pred(sends[0][0])
+    kind = error_payload(repo, "runners", cs[1].args[0], exc_name) if repo is not None else ("raw" if sends[1][1].startswith(f"({exc_name},") else None)
+    _PAYLOAD_KINDS.append((sends[1][0], kind, cs[1]))
+    ok = sends[0][1] == "-2" and kind is not None and sends[0][0] == sends[1][0] and conn_pred(sends[0][0])
     return ok, sends
 
 
+_PAYLOAD_KINDS = []
+
+
 def r1_total(repo, report):
+    del _PAYLOAD_KINDS[:]
     # worker
     c, wrun = repo.need_method("WorkerProcess", "run")
     body = strip_docstring(wrun.body)
@@ -63,7 +73,7 @@ def r1_total(repo, report):
     facts = {"statements_outside_try": [src(s)[:60] for s in body if not isinstance(s, ast.Try)]}
     if ok:
         h = body[0].handlers[0]
-        good, sends = _handler_sends_error(h, lambda c: c == "self._write_pipe.send")
+        good, sends = _handler_sends_error(h, lambda c: c == "self._write_pipe.send", repo, h.name or "e")
         facts["handler_sends"] = sends
         ok = good and h.name == "e" and not any(isinstance(x, (ast.Return, ast.Continue, ast.Break)) for x in ast.walk(h))
     report.ob("C12.R1", "WorkerProcess.run", ok, facts=facts, expected="whole body in try; except Exception as e: send(-2); send((e, traceback)) on the write pipe", loc=repo.loc(wrun),
@@ -81,7 +91,7 @@ def r1_total(repo, report):
         loops = [n for n in h.body if isinstance(n, ast.For)]
         good = len(loops) == 1 and src(loops[0].iter) == "self.connections"
         if good:
-            g2, sends = _handler_sends_error(loops[0], lambda c: c == f"{loops[0].target.id}.send")
+            g2, sends = _handler_sends_error(loops[0], lambda c: c == f"{loops[0].target.id}.send", repo, h.name or "e")
             facts["outer_handler_sends"] = sends
             good = g2
         ok = good
@@ -92,7 +102,7 @@ def r1_total(repo, report):
     facts = {}
     if ok:
         h = inner[0].handlers[0]
-        good, sends = _handler_sends_error(h, lambda c: c == "self._file_format_connection.send")
+        good, sends = _handler_sends_error(h, lambda c: c == "self._file_format_connection.send", repo, h.name or "e")
         facts["inner_handler_sends"] = sends
         reraises = any(isinstance(x, ast.Raise) and x.exc is None for x in h.body)
         covered = sorted({chain(x.func) for x in calls(ast.Module(body=inner[0].body, type_ignores=[])) if chain(x.func) in ("xopen_rb_raise_limit", "detect_file_format")})
@@ -138,6 +148,14 @@ def r1_total(repo, report):
     report.ob("C12.R1", "ReaderProcess.run: poison pills only after a complete read", ok, facts=where, expected="self.shutdown() is a statement of the outer try body after the chunk loop - not in a finally or handler",
               loc=repo.loc(sh[0]) if sh else repo.loc(rrun), why="" if ok else "on a reader error the workers would receive the end token before the error token: the run ends with status 0 and shortened output")
 
+
+    # the object announced by -2 must arrive: a raw exception object cannot be pickled for every class (igzip_lib.IsalError
+    # cannot); if the second send fails, the receiver has read -2 and waits for the tuple forever
+    for conn, kind, node in list(_PAYLOAD_KINDS):
+        report.ob("C12.R1", f"error payload on {conn[:-5]} can always be sent", kind in ("guarded", "text"), facts={"payload": src(node.args[0]), "kind": kind}, loc=repo.loc(node),
+                  expected="(F(e), traceback) with F a pickling guard that falls back to a built-in exception carrying the message, or the error as text",
+                  why="" if kind in ("guarded", "text") else "the exception object is sent as it is: an exception class that cannot be pickled (e.g. igzip_lib.IsalError from a damaged gzip header) makes this send fail after the -2 header went out, and the receiver hangs")
+    report.floor("C12.R1", "error payload sites", len(_PAYLOAD_KINDS), 3)
 
 def r2_sentinels(repo, report):
     from . import c06
